@@ -3,7 +3,7 @@ From Coq Require Import List String.
 From VQ.Gen Require Import p_simvq_codebook.
 Import ListNotations.
 Open Scope string_scope.
-Lemma pin_p_simvq_codebook : p_simvq_codebook =
+Definition pinned_p_simvq_codebook : list string :=
   ["codebook=self.code_transform(self.frozen_codebook)";
    "frozen=torch.randn(codebook_size, frozen_codebook_dim) * frozen_codebook_dim ** (-0.5) ; init_fn(codebook)";
    "transform=codebook_transform";
@@ -12,4 +12,5 @@ Lemma pin_p_simvq_codebook : p_simvq_codebook =
    "rpq.nn.init.xavier_normal_(rand_projs)";
    "rpq.self.register_buffer('rand_projs', rand_projs)";
    "rpq.self.vq = VectorQuantize(dim=codebook_dim * num_codebooks, heads=num_codebooks, codebook_size=codebook_size, use_cosine_sim=True, separate_codebook_per_head=True, **kwargs)"].
+Lemma pin_p_simvq_codebook : p_simvq_codebook = pinned_p_simvq_codebook.
 Proof. reflexivity. Qed.
